@@ -196,7 +196,7 @@ class RankSim:
         busy_until = max([self.last_end[s] for s in waits] + [t])
         end = max(t + self.dur(), busy_until + self.g * rng.choice([0, 0, 1]))
         self.x("cuda_runtime", name, self.host_pid, tid, t, end - t,
-               {"correlation": c, "External id": c + 1, "cbid": 131})
+               {"correlation": c, "External id": c + 1, "cbid": 131, "_stream": waits[0]})
         return end
 
     # -- host side -----------------------------------------------------------------------
@@ -398,3 +398,32 @@ def features(case: Dict[str, Any]) -> Dict[str, int]:
 def nontrivial(f: Dict[str, int]) -> bool:
     return (f["ties_start"] + f["ties_end"] + f["touching"] + f["identical"] + f["zero_len"]
             + f["missing_partner"]) > 0
+
+
+# -- critical-path traces: blocking syncs get their GPU-side cuda_sync records -----------------
+def add_sync_records(rng: random.Random, case: Dict[str, Any]) -> None:
+    """For every cudaStreamSynchronize / cudaDeviceSynchronize host call add the GPU-side record Kineto
+    writes (cat cuda_sync; 'Stream Sync' on the awaited stream, 'Context Sync' on stream -1) with the
+    same correlation id and a span that ends with the host call."""
+    for r, ev in case["ranks"].items():
+        extra = []
+        for e in ev:
+            if e.get("ph") != "X" or e.get("name") not in ("cudaStreamSynchronize", "cudaDeviceSynchronize"):
+                continue
+            a = e["args"]
+            lead = min(e["dur"], case["cfg"]["grid"] * rng.choice([0, 0, 1]))
+            if e["name"] == "cudaStreamSynchronize":
+                s = a.get("_stream", 7)
+                rec = {"ph": "X", "cat": "cuda_sync", "name": "Stream Sync", "pid": int(r), "tid": s, "ts": e["ts"] + lead,
+                       "dur": e["dur"] - lead, "args": {"correlation": a["correlation"], "stream": s, "device": int(r),
+                                                        "External id": a["External id"], "cuda_sync_kind": "Stream Sync"}}
+            else:
+                rec = {"ph": "X", "cat": "cuda_sync", "name": "Context Sync", "pid": int(r), "tid": -1, "ts": e["ts"] + lead,
+                       "dur": e["dur"] - lead, "args": {"correlation": a["correlation"], "stream": -1, "device": int(r),
+                                                        "External id": a["External id"], "cuda_sync_kind": "Context Sync"}}
+            extra.append(rec)
+        for x in extra:
+            ev.insert(rng.randint(1, len(ev)), x)
+        for e in ev:
+            if isinstance(e.get("args"), dict):
+                e["args"].pop("_stream", None)
